@@ -312,7 +312,9 @@ def typed_strategies():
     intexp = st.recursive(int_leaf, lambda ch: st.tuples(st.sampled_from(['+', '-', '*']), ch, ch).map(
         lambda t: ['bin', t[0], t[1], t[2]]), max_leaves=3)
     word = st.sampled_from(WORDS).map(lambda w: ['str', w])
-    piece = st.one_of(word, word, intexp, st.tuples(st.integers(0, 9), st.integers(1, 9)).map(lambda t: ['num', f'{t[0]}.{t[1]}']))
+    quotient = st.tuples(st.integers(1, 12), st.sampled_from([1, 2, 3, 4, 5, 8])).map(lambda t: ['par', ['bin', '/', ['num', str(t[0])], ['num', str(t[1])]]])
+    piece = st.one_of(word, word, intexp, st.tuples(st.integers(0, 9), st.integers(1, 9)).map(lambda t: ['num', f'{t[0]}.{t[1]}']),
+                      boollit, quotient, st.sampled_from(['A5', 'A6']).map(lambda r: ['ref', r]))
     txt = st.recursive(piece, lambda ch: st.tuples(ch, ch).map(lambda t: ['bin', '&', t[0], t[1]]), max_leaves=4)
     wordsonly = st.recursive(word, lambda ch: st.tuples(ch, ch).map(lambda t: ['bin', '&', t[0], t[1]]), max_leaves=3)
     cmpop = st.sampled_from(F.CMP)
